@@ -270,7 +270,8 @@ def run(ctx):
                         return False
                     # inner loop starts at outer index + 1 and both run to size()
                     ini = T.node(b2[2]) if b2[2] is not None else None
-                    inner_ok = ini is not None and ini[0] == 'op' and ini[1] == '+' and T.op(ini[2 if T.op(ini[2]) == 'iv' else 3]) == 'iv'
+                    inner_ok = (ini is not None and ini[0] == 'op' and ini[1] == '+' and
+                                set((ini[2], ini[3])) == set((T.mk('iv', L1), T.int(1))))
                     return b1[0] == b2[0] and b1[1] == '<' and b2[1] == '<' and inner_ok
                 clause('distinct_pairwise_' + name, m.ne(gt, gt, pair), 'all pairs %s differ' % name)
         # canonical generator
